@@ -203,8 +203,16 @@ func (m *memRun) snap() (snapshot, bool) {
 // quiesce waits until every waiter goroutine is finished or blocked in select
 // and nothing (states, waiter table, records) changed over `need` consecutive
 // polls `gap` apart.
+// hungSeen counts the scripts of this process that did not become quiescent; after a few of them the
+// waiting time is cut (a busy-looping implementation would otherwise cost 4 s per script)
+var hungSeen int
+
 func (m *memRun) quiesce(need int, gap time.Duration) bool {
-	deadline := time.Now().Add(4 * time.Second)
+	limit := 4 * time.Second
+	if hungSeen >= 3 {
+		limit = 400 * time.Millisecond
+	}
+	deadline := time.Now().Add(limit)
 	var prev snapshot
 	same := 0
 	for {
@@ -442,6 +450,7 @@ func (m *memRun) runStep(o Step) bool {
 	}
 	if !m.quiesce(need, gap) {
 		m.hung = true
+		hungSeen++
 	}
 	// a pending real expiry instant must not fall into (or before) a step that is not the expire step:
 	// real and logical time would disagree
